@@ -104,8 +104,9 @@ Proof.
   unfold head_class, validate, lax_version. simpl.
   destruct (parse_request_line (h_reqline hd)) as [[[me t] p]|]; [|discriminate].
   destruct (is_token me); simpl; [|discriminate].
-  destruct (bfe_version_ok p) eqn:Ebv; simpl; [|discriminate].
+  destruct (bfe_version_ok p) eqn:Ebv; simpl; [|destruct (max_uri <? blen t); discriminate].
   destruct (ref_version_ok p) eqn:Erv; simpl; [|discriminate].
+  destruct (max_uri <? blen t); [intros _ H; exact H|].
   destruct (existsb emptyname_line (h_lines hd)) eqn:En; [discriminate|].
   destruct (target_class me t =? 0); [intros _ H; exact H|].
   destruct (target_class me t =? 3); [intros _ H; exact H|].
@@ -280,6 +281,7 @@ Proof.
   intros hd m. unfold validate. simpl.
   destruct (parse_request_line (h_reqline hd)) as [[[me t] p]|]; [|discriminate].
   destruct (is_token me) eqn:Em; simpl; [|discriminate].
+  destruct (max_uri <? blen t); [discriminate|].
   destruct (bfe_version_ok p); simpl; [|discriminate].
   destruct (target_class me t =? 0); [discriminate|]. destruct (target_class me t =? 3); [discriminate|].
   destruct (h_leadws hd); [discriminate|].
